@@ -42,7 +42,9 @@ import subprocess
 import time
 
 VERIF = os.path.dirname(os.path.dirname(os.path.dirname(os.path.abspath(__file__))))
-REPO = "/repo"
+# VERIF_REPO: development aid (try the check against another checkout, e.g. a scratch worktree with a seeded
+# change, without touching /repo); the registered commands never set it
+REPO = os.environ.get("VERIF_REPO", "/repo").rstrip("/")
 BUILD = os.path.join(VERIF, ".build")
 
 
